@@ -1,0 +1,116 @@
+//go:build verif
+
+package ics20
+
+// Contracts for the deductive checker in /verif (comment-only; compiled only with -tags verif).
+// Lib specs: /verif/specs/c04/*.spec
+
+/*@
+alias MsgTransfer github.com/cosmos/ibc-go/v7/modules/apps/transfer/types.MsgTransfer
+specfunc bigval(p *math/big.Int) int = ite(p == nil, 0, *p)
+
+// ------------------------------------------------------------------ C16: ABI argument decoding (S1)
+func CreateAndValidateMsgTransfer
+    ensures err_iff: (result.1 == nil) == transfer_vb_ok(sourcePort, sourceChannel, coin.Denom, coin.Amount, senderAddress, receiverAddress, memo)
+    ensures msg: result.1 == nil ==> result.0 != nil && fresh(result.0) && result.0.SourcePort == sourcePort && result.0.SourceChannel == sourceChannel
+            && result.0.Token == coin && result.0.Sender == senderAddress && result.0.Receiver == receiverAddress
+            && result.0.TimeoutHeight == timeoutHeight && result.0.TimeoutTimestamp == timeoutTimestamp && result.0.Memo == memo
+    ensures refused: result.1 != nil ==> result.0 == nil
+
+// (port, channel, denom, amount, sender, receiver, timeout height, timeout timestamp, memo) -> MsgTransfer with exactly these
+// fields, sender rendered as account string. The timeout height is whatever abi.Arguments.Copy (reflection, not modelled)
+// decodes from args[6]; a failure of that copy is the only refusal not characterised here.
+func NewMsgTransfer
+    // call site: the ABI method of `transfer` (9 inputs)
+    requires abi_method: method != nil && len(method.Inputs) == 9
+    let ok = len(args) == 9 && isdyn(args[0], string) && isdyn(args[1], string) && isdyn(args[2], string) && isdyn(args[3], *BigInt) && dyn(args[3], *BigInt) != nil
+             && isdyn(args[4], Address) && isdyn(args[5], string) && isdyn(args[7], uint64) && isdyn(args[8], string)
+    let vb = transfer_vb_ok(dyn(args[0], string), dyn(args[1], string), dyn(args[2], string), bigval(dyn(args[3], *BigInt)), bech_of(dyn(args[4], Address)), dyn(args[5], string), dyn(args[8], string))
+    ensures err_decode: !ok ==> result.2 != nil
+    ensures err_invalid: ok && !vb ==> result.2 != nil
+    ensures msg: result.2 == nil ==> ok && vb && result.0 != nil && fresh(result.0)
+            && result.0.SourcePort == dyn(args[0], string) && result.0.SourceChannel == dyn(args[1], string)
+            && result.0.Token.Denom == dyn(args[2], string) && result.0.Token.Amount == bigval(dyn(args[3], *BigInt))
+            && result.0.Sender == bech_of(dyn(args[4], Address)) && result.0.Receiver == dyn(args[5], string)
+            && result.0.TimeoutTimestamp == dyn(args[7], uint64) && result.0.Memo == dyn(args[8], string)
+    ensures who: result.2 == nil ==> result.1 == dyn(args[4], Address)
+    ensures refused: result.2 != nil ==> result.0 == nil
+    // abi.Arguments.Copy is left opaque (it writes the local `input` through reflection): the engine havocs everything reachable
+    // from its arguments, including the ABI type descriptors of `method`; "NewMsgTransfer does not modify *method" is not proved
+    allow frame
+
+// ------------------------------------------------------------------ C04: grant check and bookkeeping (S3)
+alias SDB github.com/haqq-network/haqq/x/evm/statedb.StateDB
+alias TA github.com/cosmos/ibc-go/v7/modules/apps/transfer/types.TransferAuthorization
+const glob_ics20_TransferMsgURL string
+
+func (Precompile).Address
+    ensures true
+
+// the stored authorization must be a TransferAuthorization that accepts this very message
+func AcceptGrant
+    // authorizations come from GetAuthorization: a typed authorization value is never a nil pointer
+    requires msg: msg != nil && (isdyn(authzAuthorization, *TA) ==> dyn(authzAuthorization, *TA) != nil)
+    ensures ok: result.1 == nil ==> result.0 != nil && fresh(result.0) && isdyn(authzAuthorization, *TA) && result.0.Accept
+            && transfer_covers(old(*dyn(authzAuthorization, *TA)), old(*msg))
+    ensures wrong_type: !isdyn(authzAuthorization, *TA) ==> result.1 != nil
+    ensures not_covered: isdyn(authzAuthorization, *TA) && dyn(authzAuthorization, *TA) != nil && !transfer_covers(old(*dyn(authzAuthorization, *TA)), old(*msg)) ==> result.1 != nil
+
+// C04: when the caller is not the signer, a live TransferAuthorization grant (signer -> caller) must accept the message
+func CheckAndAcceptAuthorizationIfNeeded
+    requires wf: contract != nil && msg != nil
+    let caller = old(contract.CallerAddress)
+    let key = gkey(addr_bytes(caller), addr_bytes(origin), glob_ics20_TransferMsgURL)
+    ensures own: caller == origin ==> result.0 == nil && result.1 == nil && result.2 == nil
+    ensures granted: caller != origin && result.2 == nil ==> GLive(g_kind, g_exp, key, ctx) && g_kind[key] == TransferTag() && result.0 != nil && fresh(result.0) && result.0.Accept && result.1 == g_exp[key]
+    ensures no_grant: caller != origin && (!GLive(g_kind, g_exp, key, ctx) || g_kind[key] != TransferTag()) ==> result.2 != nil
+
+// the grant is deleted / replaced exactly as the Accept response says, for exactly (grantee, granter)
+func UpdateGrant
+    requires resp: resp != nil
+    let key = gkey(addr_bytes(grantee), addr_bytes(granter), glob_ics20_TransferMsgURL)
+    modifies g_kind, g_exp, g_limited, g_limit
+    call SaveGrant requires exact: gte == addr_bytes(grantee) && gtr == addr_bytes(granter) && exp == expiration && authorization == resp.Updated && !resp.Delete
+    call DeleteGrant requires exact: gte == addr_bytes(grantee) && gtr == addr_bytes(granter) && url == glob_ics20_TransferMsgURL && resp.Delete
+    ensures deleted: err == nil && old(resp.Delete) ==> g_kind == upd(old(g_kind), key, 0)
+    ensures kept: err == nil && !old(resp.Delete) && old(resp.Updated) == nil ==> g_kind == old(g_kind) && g_exp == old(g_exp)
+    ensures stake_untouched: err == nil && (old(resp.Updated) == nil || typeof(old(resp.Updated)) != StakeTag()) ==> g_limited == old(g_limited) && g_limit == old(g_limit)
+
+func UpdateGrantIfNeeded
+    requires wf: contract != nil && (contract.CallerAddress != origin ==> resp != nil)
+    modifies g_kind, g_exp, g_limited, g_limit
+    call UpdateGrant requires exact: grantee == old(contract.CallerAddress) && granter == origin && grantee != granter
+    ensures own: old(contract.CallerAddress) == origin ==> result == nil && g_kind == old(g_kind) && g_exp == old(g_exp) && g_limited == old(g_limited) && g_limit == old(g_limit)
+
+func EmitIBCTransferEvent
+    // abi.json: event IBCTransfer has 7 inputs (sender, receiver indexed; port, channel, denom, amount, memo)
+    requires wf: ctx_height(ctx) >= 0 && len(event.Inputs) == 7
+    ensures true
+
+// ------------------------------------------------------------------ C04 + C16: the transaction
+// C04: funds leave an account through ICS-20 only on its own call (sender is the signer or the calling contract), and when
+// the caller is not the signer only under a live grant (signer -> caller) that accepted this message; the grant is then
+// updated with the response of that Accept. C16: the call is the native MsgTransfer (haqq transfer keeper).
+func (Precompile).Transfer
+    requires wf: contract != nil && method != nil && len(method.Inputs) == 9 && ctx_height(ctx) >= 0 && isdyn(stateDB, *SDB) && dyn(stateDB, *SDB) != nil && p.stakingKeeper.Keeper != nil && len(p.ABI.Events["IBCTransfer"].Inputs) == 7
+    let caller = old(contract.CallerAddress)
+    let key = gkey(addr_bytes(caller), addr_bytes(origin), glob_ics20_TransferMsgURL)
+    let sender = dyn(args[4], Address)
+    let M = ret(NewMsgTransfer, 1, 0)
+    modifies cstate, g_kind, g_exp, g_limited, g_limit, sdb_delta
+    call Keeper.Transfer requires who: msg.Sender == bech_of(origin) || msg.Sender == bech_of(caller)
+    call Keeper.Transfer requires named: msg == M && msg.Sender == bech_of(sender) && goCtx == ctx_wrap(ctx) && has_channel(p.channelKeeper, ctx, msg.SourcePort, msg.SourceChannel)
+    call Keeper.Transfer requires granted: caller != origin ==> GLive(g_kind, g_exp, key, ctx) && g_kind[key] == TransferTag() && ret(CheckAndAcceptAuthorizationIfNeeded, 1, 0) != nil
+    call Keeper.Transfer requires untouched: cstate == old(cstate) && g_kind == old(g_kind) && g_exp == old(g_exp) && sdb_delta == old(sdb_delta)
+    call UpdateGrantIfNeeded requires exact: resp == ret(CheckAndAcceptAuthorizationIfNeeded, 1, 0) && expiration == ret(CheckAndAcceptAuthorizationIfNeeded, 1, 1)
+    call Pack requires packs_sequence: len(args) == 1 && isdyn(args[0], uint64) && dyn(args[0], uint64) == ret(Transfer, 1, 0).Sequence
+    ensures who: result.1 == nil ==> sender == origin || sender == caller
+    ensures granted: result.1 == nil && caller != origin ==> old(GLive(g_kind, g_exp, key, ctx)) && old(g_kind[key]) == TransferTag()
+    ensures own_call: caller == origin ==> g_kind == old(g_kind) && g_exp == old(g_exp) && g_limited == old(g_limited) && g_limit == old(g_limit)
+    ensures refused: (len(args) == 9 && isdyn(args[4], Address) && sender != origin && sender != caller) ==> result.1 != nil && cstate == old(cstate) && sdb_delta == old(sdb_delta)
+    ensures native_ok: result.1 == nil ==> transfer_ok(old(cstate), ctx_wrap(ctx), *M)
+    ensures native_effect: result.1 == nil ==> cstate == transfer_post(old(cstate), ctx_wrap(ctx), *M)
+    // the EVM balance mirror of the calling contract is debited exactly when it is the sender and the token is the EVM denomination
+    ensures mirror: result.1 == nil ==> sdb_delta == ite(caller == sender && M.Token.Denom == bond_denom(oldheap(*p.stakingKeeper.Keeper), ctx),
+            upd(old(sdb_delta), caller, old(sdb_delta)[caller] - M.Token.Amount), old(sdb_delta))
+@*/
